@@ -70,7 +70,9 @@ func (r faultyRes) ResolvePackage(path string) (string, error) {
 	return r.inner.ResolvePackage(path)
 }
 
-var c17Modes = []string{"decorate-goast-inner", "decorate-goast-outer", "decorate-gotypes", "parse-goast", "restore", "restore-imports-removed", "restore-alias", "restore-file"}
+// parse-goast-broken: Decorator.Parse of the template followed by a declaration with a syntax error the
+// parser recovers from (a tree and a syntax error come back when nothing is injected)
+var c17Modes = []string{"decorate-goast-inner", "decorate-goast-outer", "decorate-gotypes", "parse-goast", "restore", "restore-imports-removed", "restore-alias", "restore-file", "parse-goast-broken"}
 
 type c17Case struct {
 	Template string `json:"template"`
@@ -92,7 +94,7 @@ func init() {
 	core.Register(&core.Prop{
 		ID:    "C17",
 		Level: "fault_enumeration",
-		Rule: "fault-position enumeration (choice tree, failure = deviation): for every import-bearing template and 8 entry configurations (DecorateFile with goast failing in its inner package-name resolver / wrapped as a whole, gotypes, Decorator.Parse; Restorer.Fprint with imports present / removed / alias overrides, RestoreFile), " +
+		Rule: "fault-position enumeration (choice tree, failure = deviation): for every import-bearing template and 9 entry configurations (DecorateFile with goast failing in its inner package-name resolver / wrapped as a whole, gotypes, Decorator.Parse of the template and of the template followed by a recoverable syntax error; Restorer.Fprint with imports present / removed / alias overrides, RestoreFile), " +
 			"every position in the resolver call sequence is failed, in histories fail@k1 -> retry, fail@k1 -> fail@k2 -> retry, and three (thorough: four) failures before the retry (fresh decorator/restorer, same input, shared syntax resolver instance); " +
 			"oracle: error returned and errors.Is(injected), no panic, nothing written, no tree returned, input ast/dst snapshot unchanged, final retry equals the failure-free result; non-trivial = execution with at least one injected failure",
 		Assumptions: []string{"the resolver call order inside the restorer is a map order: every call position of the order that occurred is failed, map orders themselves are explored under C16"},
@@ -252,8 +254,17 @@ func c17Exec(cs c17Case, c *explore.Chooser) core.Outcome {
 				case "parse-goast":
 					d := decorator.NewDecoratorWithImports(token.NewFileSet(), localPath, faultyDec{goast.WithResolver(simple.New(stdNames)), ctl})
 					df, err = d.Parse(src)
+				case "parse-goast-broken":
+					d := decorator.NewDecoratorWithImports(token.NewFileSet(), localPath, faultyDec{goast.WithResolver(simple.New(stdNames)), ctl})
+					df, err = d.Parse(src + "\nfunc broken( {\n")
 				}
 			})
+			if cs.Mode == "parse-goast-broken" && pan == "" && err != nil && !errors.Is(err, errInjected) && df != nil {
+				// nothing was injected: the syntax error next to a tree is the regular result of this mode
+				res.tree = snapshotNode(df)
+				res.out = "syntax error reported: " + err.Error()
+				return res, nil, "", 0
+			}
 			if pan == "" && err == nil && df != nil {
 				res.tree = snapshotNode(df)
 				r := decorator.NewRestorerWithImports(localPath, simple.New(stdNames))
@@ -267,7 +278,7 @@ func c17Exec(cs c17Case, c *explore.Chooser) core.Outcome {
 					res.tree += "|unprintable: " + pp
 				}
 				res.out = buf.String()
-			} else if df != nil && err != nil && cs.Mode != "parse-goast" {
+			} else if df != nil && err != nil && cs.Mode != "parse-goast" && cs.Mode != "parse-goast-broken" {
 				wrote = 1 // a tree came back together with an error
 			}
 			return
